@@ -20,3 +20,6 @@ import EmuVerif.Props.C11
 #print axioms EmuVerif.Props.C11.corr_offdiag_counterexample
 #print axioms EmuVerif.Props.C11.corr_diag_counterexample
 #print axioms EmuVerif.Props.C11.corr_offdiag_repaired_witness
+#print axioms EmuVerif.Props.C11.rmul_amp
+#print axioms EmuVerif.Props.C11.rmul_scales_center
+#print axioms EmuVerif.Props.C11.rmul_norm_at_center
